@@ -14,8 +14,9 @@ func init() {
 		"(R4) VerifySCTSignature / VerifySTHSignature return the serializer's error or the verdict of tls.VerifySignature over (verifier's key, serialized input of the arguments, the object's own signature) and nothing else; "+
 		"(R5) loglist3.NewFromSignedJSON yields a list only after tls.VerifySignature succeeded over the very bytes that are then parsed, with (SHA256, algorithm of the key's type), and refuses other key types; "+
 		"(R6) ctutil.VerifySCT[WithVerifier] refuse a nil verifier / unusable key and otherwise return the verifier's verdict for the leaf built from their arguments; "+
-		"(R8) every verdict function above tls.VerifySignature (found from the call graph: single error/bool result, hands something it was given to the next verification layer) reports 'valid' only on a path on which a call of the next layer reported 'valid', returns no verdict of another origin (a remembered one, a second source), treats a failed verification as final and verifies operands that derive from its own receiver and parameters; the only way round is an absent verifier (client.LogClient without one, counted). "+
-		"NOT covered: cryptographic validity itself (library verifiers are trusted), that every signed field is in the serialized input (C04), single-bit mutation behaviour, DER corner cases inside asn1.Unmarshal, tls.CreateSignature.",
+		"(R8) every verdict function above tls.VerifySignature (found from the call graph: single error/bool result, hands something it was given to the next verification layer) reports 'valid' only on a path on which a call of the next layer reported 'valid', returns no verdict of another origin (a remembered one, a second source), treats a failed verification as final and verifies operands that derive from its own receiver and parameters; the only ways round are an absent verifier (client.LogClient without one, counted) and a remembered verdict decided by R9; "+
+		"(R9) a verdict function that reports 'valid' from memory (a record read from a sync/atomic.Pointer cell instead of a verdict of this call) does so only when the remembered verification answers this call's question: the record is read once, is never written after its publication, is published only in that function and only after a call of the next layer reported valid; for every leaf of every operand of that call (key taken apart per dynamic type into its fields, declared hash and signature algorithm, data, signature bytes) the branch outcomes holding on every path to the return entail that the current leaf equals what the record holds for it (==, bytes.Equal, big.Int.Cmp, a SHA-2 digest of it, or a module predicate summarised from its own true-paths), the record's field was filled from that same operand of the verified call, and what it keeps is a private copy, not the caller's slice or key object; the wrappers' plain `return nil` is accepted only where it cannot execute once the verdict call failed; "+
+		"NOT covered: cryptographic validity itself (library verifiers are trusted), that every signed field is in the serialized input (C04), single-bit mutation behaviour, DER corner cases inside asn1.Unmarshal, tls.CreateSignature; remembered verdicts held in anything but a sync/atomic.Pointer to an immutable record (a map, a mutex-guarded field, atomic.Value), filled outside the verdict function or through a copy function the source normaliser did not expand are not decided sound, they are reported (R8/R9 fail closed); SHA-2 collision resistance and 'the next layer's verdict depends on its operands only' are assumed.",
 		runC05)
 }
 
@@ -44,6 +45,7 @@ func runC05(r *Run) {
 	c05LogList(r)
 	c05Ctutil(r)
 	c05Chain(r)
+	c05DebugDump(r)
 
 	// signed-field coverage of the SCT / STH signature inputs (rule set of C04.R3)
 	r.Shared("C05.R7", func() {
@@ -181,7 +183,7 @@ func c05NewVerifier(r *Run) {
 func c05Wrappers(r *Run) {
 	r.Rule("C05.R4")
 	if fn := r.Fn("(ct.SignatureVerifier).VerifySignature"); fn != nil {
-		cs := r.VerdictShape(fn, "SignatureVerifier.VerifySignature", "tls.VerifySignature", nil)
+		cs := r.VerdictShape(fn, "SignatureVerifier.VerifySignature", "tls.VerifySignature", c05NilAfterVerdict(r, fn, "tls.VerifySignature"))
 		r.Check("SignatureVerifier.VerifySignature:delegates", len(cs) >= 1, r.FnPos(fn), "returns tls.VerifySignature's verdict")
 		for _, c := range cs {
 			r.ExpectArg(c, "SignatureVerifier.VerifySignature:key", 0, "p0.PubKey")
@@ -198,7 +200,7 @@ func c05Wrappers(r *Run) {
 			continue
 		}
 		k := short(w.fn)
-		cs := r.VerdictShape(fn, k, "(ct.SignatureVerifier).VerifySignature || tls.VerifySignature", nil)
+		cs := r.VerdictShape(fn, k, "(ct.SignatureVerifier).VerifySignature || tls.VerifySignature", c05NilAfterVerdict(r, fn, "(ct.SignatureVerifier).VerifySignature || tls.VerifySignature"))
 		r.Check(k+":delegates", len(cs) >= 1, r.FnPos(fn), "returns the verdict of the signature check")
 		ser := r.OneCall(fn, k+":serializer", w.ser)
 		if ser != nil {
